@@ -661,6 +661,15 @@ class CallMixin:
                 yield st, x
             else:
                 raise Unsupported("sorted(%r)" % x.ty, node)
+        elif name == "reversed":
+            from .vals import Reversed
+            (x,) = args
+            if isinstance(x, PyList):
+                yield st, PyList(list(reversed(x.items)))
+            elif isinstance(x.ty, TSeq):
+                yield st, Reversed(x)
+            else:
+                raise Unsupported("reversed(%r)" % x.ty, node)
         elif name == "bool":
             yield st, mk_bool(truth(args[0]))
         elif name == "repr":
